@@ -295,8 +295,8 @@ func newPnftEnv(v pnftVariant) *pnftEnv {
 	e.Denoms = []string{"d", "dd"}
 	e.TokIDs = []string{"t", "tt"}
 	if v.Wide {
-		e.Denoms = []string{"d", "dd", "d\x00x", "d\x00", "\x00d"}
-		e.TokIDs = []string{"t", "tt", "x\x00t", "\x00t", "t\x00"}
+		e.Denoms = []string{"d", "dd", "d\x00x", "d\x00", "\x00d", "%64"} // "%64" is NOT "d": ids are opaque bytes, never URL-decoded
+		e.TokIDs = []string{"t", "tt", "x\x00t", "\x00t", "t\x00", "%74"}
 	}
 	return e
 }
@@ -364,6 +364,9 @@ func pnftOps(e *pnftEnv, v pnftVariant) []explore.Op {
 		mint("d ", "t", B),
 		txOp("TransferDenom(d_,A->C)", s(A), pnfttypes.NewMsgTransferRequest("d ", A.Bech, C.Bech)),
 	)
+	// a denom id that is another denom's id plus one trailing NUL (the x/nft key delimiter) must be refused: tokens minted
+	// in it would be stored inside the other owner's denom
+	ops = append(ops, createDenom("d\x00", B, B.Bech), mint("d\x00", "t", B))
 	// rollback routes: transactions whose later message fails, and transactions that are only simulated on the node
 	failing := pnfttypes.NewMsgBurnPNFTRequest("nosuchdenom", "t", A.Bech)
 	failingB := pnfttypes.NewMsgBurnPNFTRequest("nosuchdenom", "t", B.Bech)
@@ -423,6 +426,9 @@ func pnftOps(e *pnftEnv, v pnftVariant) []explore.Op {
 			mint("d", "t\x00", A),
 			createDenom("d\x00", A, A.Bech),
 			createDenom("\x00d", A, A.Bech),
+			createDenom("%64", B, B.Bech),
+			mint("d", "%74", A),
+			mint("%64", "t", B),
 			txOp("Burn(d\\0x,t,A)", s(A), pnfttypes.NewMsgBurnPNFTRequest("d\x00x", "t", A.Bech)),
 			txOp("TransferPNFT(d\\0x,t,A->B)", s(A), pnfttypes.NewMsgTransferPNFTRequest("d\x00x", "t", A.Bech, B.Bech)),
 			txOp("DeleteDenom(dd,A)", s(A), pnfttypes.NewMsgDeleteDenomRequest("dd", A.Bech)),
